@@ -76,4 +76,214 @@ theorem exactStages_length {F : Type} (lens : List Nat) (dec : List F) (cuts : L
   | nil => rfl
   | cons c cs ih => simp [exactStages, ih]
 
+/-! ### the LAMMPS stage specification `lmpStages` -/
+
+theorem sumLens_take_add' (l : List Nat) (a b : Nat) :
+    sumLens (l.take (a + b)) = sumLens (l.take a) + sumLens ((l.drop a).take b) := by
+  rw [List.take_add, sumLens_append]
+
+theorem sumLens_take_mono (l : List Nat) (a b : Nat) (h : a ≤ b) :
+    sumLens (l.take a) ≤ sumLens (l.take b) := by
+  obtain ⟨k, rfl⟩ := Nat.exists_eq_add_of_le h
+  rw [sumLens_take_add']; omega
+
+theorem le_completeCount (lens : List Nat) (d c : Nat) (hd : d ≤ lens.length)
+    (hs : sumLens (lens.take d) ≤ c) : d ≤ completeCount lens c := by
+  induction lens generalizing d c with
+  | nil => simp at hd; omega
+  | cons l ls ih =>
+    cases d with
+    | zero => omega
+    | succ d =>
+      simp only [List.take_succ_cons, sumLens, List.length_cons] at hs hd
+      have h1 : l ≤ c := by omega
+      simp only [completeCount, h1, if_true]
+      have := ih d (c - l) (by omega) (by omega)
+      omega
+
+/-- `lmpCount` = the complete frames, plus possibly one frame that lacks exactly its final byte -/
+theorem lmpCount_spec (ls : List Nat) (n : Nat) :
+    ((lmpCount ls n).2 = false ∧ (lmpCount ls n).1 = completeCount ls n) ∨
+    ((lmpCount ls n).2 = true ∧ (lmpCount ls n).1 = completeCount ls n + 1 ∧
+      sumLens (ls.take (completeCount ls n + 1)) = n + 1 ∧ completeCount ls n < ls.length) := by
+  induction ls generalizing n with
+  | nil => left; simp [lmpCount, completeCount]
+  | cons l ls ih =>
+    by_cases h1 : l ≤ n
+    · simp only [lmpCount, completeCount, h1, if_true]
+      rcases ih (n - l) with ⟨hb, hm⟩ | ⟨hb, hm, hsum, hlt⟩
+      · left; exact ⟨hb, by omega⟩
+      · right
+        refine ⟨hb, by omega, ?_, by simp; omega⟩
+        simp only [List.take_succ_cons, sumLens]
+        omega
+    · by_cases h2 : l = n + 1
+      · right
+        subst h2
+        have h3 : ¬ (n + 1 ≤ n) := by omega
+        simp [lmpCount, completeCount, h3, sumLens]
+      · left; simp [lmpCount, completeCount, h1, h2]
+
+/-- state of the LAMMPS reader after the polls `cuts`: frames returned, "late newline pending" -/
+def lmpFinal (lens : List Nat) : List Nat → Nat → Bool → Nat × Bool
+  | [], d, l => (d, l)
+  | c :: cs, d, l =>
+    if l then
+      if c < sumLens (lens.take d) then lmpFinal lens cs d true else lmpFinal lens cs d false
+    else
+      lmpFinal lens cs (d + (lmpCount (lens.drop d) (c - sumLens (lens.take d))).1)
+        (lmpCount (lens.drop d) (c - sumLens (lens.take d))).2
+
+theorem lmpStages_append {F : Type} (lens : List Nat) (dec : List F) (a b : List Nat) (d : Nat) (l : Bool) :
+    lmpStages lens dec (a ++ b) d l
+      = lmpStages lens dec a d l ++ lmpStages lens dec b (lmpFinal lens a d l).1 (lmpFinal lens a d l).2 := by
+  induction a generalizing d l with
+  | nil => simp [lmpStages, lmpFinal]
+  | cons c cs ih =>
+    simp only [List.cons_append, lmpStages, lmpFinal]
+    cases l
+    · simp [ih]
+    · by_cases h : c < sumLens (lens.take d) <;> simp [h, ih]
+
+theorem lmpFinal_append (lens : List Nat) (a b : List Nat) (d : Nat) (l : Bool) :
+    lmpFinal lens (a ++ b) d l = lmpFinal lens b (lmpFinal lens a d l).1 (lmpFinal lens a d l).2 := by
+  induction a generalizing d l with
+  | nil => simp [lmpFinal]
+  | cons c cs ih =>
+    simp only [List.cons_append, lmpFinal]
+    cases l
+    · simp [ih]
+    · by_cases h : c < sumLens (lens.take d) <;> simp [h, ih]
+
+theorem lmpStages_length {F : Type} (lens : List Nat) (dec : List F) (cuts : List Nat) (d : Nat) (l : Bool) :
+    (lmpStages lens dec cuts d l).length = cuts.length := by
+  induction cuts generalizing d l with
+  | nil => rfl
+  | cons c cs ih =>
+    simp only [lmpStages]
+    cases l
+    · simp [ih]
+    · by_cases h : c < sumLens (lens.take d) <;> simp [h, ih]
+
+/-- a state the reader can be in before the polls `cuts` -/
+def LValid (lens : List Nat) (cuts : List Nat) (d : Nat) (l : Bool) : Prop :=
+  d ≤ lens.length ∧
+  (if l then ∀ c ∈ cuts, sumLens (lens.take d) ≤ c + 1 else ∀ c ∈ cuts, d ≤ completeCount lens c)
+
+/-- **LAMMPS reader, all polls**: the frames returned are a prefix of the trajectory (each once, in
+    order); the reader ends in a valid state; and all bytes of every returned frame, except possibly the
+    final newline of the last one, were visible at the last poll. -/
+theorem lmp_run {F : Type} (lens : List Nat) (dec : List F) (cuts : List Nat) (d : Nat) (l : Bool)
+    (hs : cuts.Pairwise (· ≤ ·)) (hv : LValid lens cuts d l) :
+    dec.take d ++ (lmpStages lens dec cuts d l).flatten = dec.take (lmpFinal lens cuts d l).1
+    ∧ (lmpFinal lens cuts d l).1 ≤ lens.length
+    ∧ (∀ c ∈ cuts.getLast?, sumLens (lens.take (lmpFinal lens cuts d l).1) ≤ c + 1) := by
+  induction cuts generalizing d l with
+  | nil => simp [lmpStages, lmpFinal, hv.1]
+  | cons c cs ih =>
+    rw [List.pairwise_cons] at hs
+    obtain ⟨hdl, hvc⟩ := hv
+    -- it suffices to treat one poll: new state valid for `cs`, output extends the prefix, bound at `c`
+    suffices hstep : ∀ (out : List F) (d' : Nat) (l' : Bool),
+        lmpStages lens dec (c :: cs) d l = out :: lmpStages lens dec cs d' l' →
+        lmpFinal lens (c :: cs) d l = lmpFinal lens cs d' l' →
+        dec.take d ++ out = dec.take d' → LValid lens cs d' l' → sumLens (lens.take d') ≤ c + 1 →
+        (dec.take d ++ (lmpStages lens dec (c :: cs) d l).flatten = dec.take (lmpFinal lens (c :: cs) d l).1
+          ∧ (lmpFinal lens (c :: cs) d l).1 ≤ lens.length
+          ∧ (∀ x ∈ (c :: cs).getLast?, sumLens (lens.take (lmpFinal lens (c :: cs) d l).1) ≤ x + 1)) by
+      cases l with
+      | true =>
+        simp only [if_true] at hvc
+        by_cases h : c < sumLens (lens.take d)
+        · apply hstep [] d true (by simp [lmpStages, h]) (by simp [lmpFinal, h]) (by simp)
+          · exact ⟨hdl, by simpa using fun x hx => hvc x (by simp [hx])⟩
+          · exact hvc c (by simp)
+        · apply hstep [] d false (by simp [lmpStages, h]) (by simp [lmpFinal, h]) (by simp)
+          · refine ⟨hdl, ?_⟩
+            simp only [Bool.false_eq_true, if_false]
+            intro x hx
+            exact le_completeCount lens d x hdl (by have := hs.1 x hx; omega)
+          · omega
+      | false =>
+        simp only [Bool.false_eq_true, if_false] at hvc
+        have hdc := hvc c (by simp)
+        have hres := completeCount_resume lens d c hdc
+        have hsd : sumLens (lens.take d) ≤ c :=
+          Nat.le_trans (sumLens_take_mono lens d _ hdc) (completeCount_sum_le lens c)
+        rcases lmpCount_spec (lens.drop d) (c - sumLens (lens.take d)) with ⟨hb, hm⟩ | ⟨hb, hm, hsum, hlt⟩
+        · have e1 : (lmpCount (lens.drop d) (c - sumLens (lens.take d))).1 = completeCount lens c - d := by
+            rw [hm]; omega
+          have e2 : d + (lmpCount (lens.drop d) (c - sumLens (lens.take d))).1 = completeCount lens c := by
+            rw [hm]; omega
+          apply hstep ((dec.drop d).take (completeCount lens c - d)) (completeCount lens c) false
+          · simp only [lmpStages, Bool.false_eq_true, if_false]; rw [hb, e2, e1]
+          · simp only [lmpFinal, Bool.false_eq_true, if_false]; rw [hb, e2]
+          · rw [← List.take_add]; congr 1; omega
+          · refine ⟨completeCount_le lens c, ?_⟩
+            simp only [Bool.false_eq_true, if_false]
+            intro x hx
+            exact completeCount_mono lens c x (hs.1 x hx)
+          · have := completeCount_sum_le lens c; omega
+        · have hcl : completeCount lens c + 1 ≤ lens.length := by
+            simp at hlt; omega
+          have hsum' : sumLens (lens.take (completeCount lens c + 1)) = c + 1 := by
+            rw [hres, Nat.add_assoc, sumLens_take_add', hsum]; omega
+          have e1 : (lmpCount (lens.drop d) (c - sumLens (lens.take d))).1 = completeCount lens c + 1 - d := by
+            rw [hm]; omega
+          have e2 : d + (lmpCount (lens.drop d) (c - sumLens (lens.take d))).1 = completeCount lens c + 1 := by
+            rw [hm]; omega
+          apply hstep ((dec.drop d).take (completeCount lens c + 1 - d)) (completeCount lens c + 1) true
+          · simp only [lmpStages, Bool.false_eq_true, if_false]; rw [hb, e2, e1]
+          · simp only [lmpFinal, Bool.false_eq_true, if_false]; rw [hb, e2]
+          · rw [← List.take_add]; congr 1; omega
+          · refine ⟨hcl, ?_⟩
+            simp only [if_true]
+            intro x hx
+            have := hs.1 x hx; omega
+          · omega
+    intro out d' l' hst hfin hout hv' hbound
+    obtain ⟨h1, h2, h3⟩ := ih d' l' hs.2 hv'
+    rw [hst, hfin]
+    refine ⟨?_, h2, ?_⟩
+    · rw [List.flatten_cons, ← List.append_assoc, hout, h1]
+    · cases cs with
+      | nil => intro x hx; simp at hx; subst hx; simpa [lmpFinal] using hbound
+      | cons c2 cs' => simpa [List.getLast?_cons_cons] using h3
+
+/-- two more polls on the complete file return everything that is left -/
+theorem lmp_final_polls {F : Type} (lens : List Nat) (dec : List F) (hlen : dec.length = lens.length)
+    (T : Nat) (hT : sumLens lens ≤ T) (d : Nat) (l : Bool) (hd : d ≤ lens.length) :
+    (lmpFinal lens [T, T] d l).1 = lens.length := by
+  have hsd : ∀ k, sumLens (lens.take k) ≤ T := by
+    intro k
+    by_cases hk : k ≤ lens.length
+    · have := sumLens_take_mono lens k lens.length hk
+      rw [List.take_length] at this; omega
+    · rw [List.take_of_length_le (by omega)]; exact hT
+  have hall : ∀ k, k ≤ lens.length →
+      lmpCount (lens.drop k) (T - sumLens (lens.take k)) = (lens.length - k, false) := by
+    intro k hk
+    have hcc : completeCount (lens.drop k) (T - sumLens (lens.take k)) = lens.length - k := by
+      have := completeCount_all (lens.drop k) (T - sumLens (lens.take k)) (by
+        have h1 := sumLens_take_add' lens k (lens.length - k)
+        have h2 : k + (lens.length - k) = lens.length := by omega
+        rw [h2, List.take_length] at h1
+        have h3 : (lens.drop k).take (lens.length - k) = lens.drop k := by
+          apply List.take_of_length_le; simp
+        rw [h3] at h1
+        have := hsd k
+        omega)
+      simpa using this
+    rcases lmpCount_spec (lens.drop k) (T - sumLens (lens.take k)) with ⟨hb, hm⟩ | ⟨_, _, _, hlt⟩
+    · exact Prod.ext (by rw [hm, hcc]) hb
+    · rw [hcc] at hlt; simp at hlt
+  cases l with
+  | true =>
+    have h1 : ¬ T < sumLens (lens.take d) := by have := hsd d; omega
+    simp [lmpFinal, h1, hall d hd]; omega
+  | false =>
+    simp only [lmpFinal, Bool.false_eq_true, if_false, hall d hd]
+    have h2 : d + (lens.length - d) = lens.length := by omega
+    simp [h2, lmpCount]
+
 end Infretis.Readers
